@@ -345,6 +345,54 @@ pub fn judge_devfull_alignment(src: Fmt, to: Fmt, pad: usize, acc: &mut Acc) {
     }
 }
 
+/// The input is a FIFO operand (it cannot be memory-mapped, xt reads it through a reader like standard
+/// input, but it is a named path): stdout on /dev/full, or a consumer that is gone before the FIFO
+/// delivers anything. The feeder opens the FIFO, waits, and only then writes.
+pub fn judge_fifo_input(src: Fmt, detect: bool, to: Fmt, devfull: bool, variant: usize, acc: &mut Acc) {
+    let data = small_input(src, variant);
+    let probe = crate::run::run_mode(&data, &crate::run::Mode::Reader(crate::mon::Sched::All), if detect { None } else { Some(src) }, to);
+    if !probe.verdict.is_ok() || probe.out.is_empty() {
+        return;
+    }
+    acc.evals += 1;
+    let sc = Scratch::new();
+    let name = file_name("pipe", src, detect);
+    sc.fifo(&name);
+    let argv: Vec<String> = vec!["-t".into(), to.name().into(), name.clone()];
+    let feeder = procmon::feed_fifo_bursts(sc.path().join(&name), vec![vec![], data], 150);
+    let bin = procmon::release_bin();
+    let mk = || Run { bin: &bin, argv: argv.clone(), cwd: sc.path(), stdin: StdinKind::Null, stdout: if devfull { StdoutKind::DevFull } else { StdoutKind::CloseAfter(0) }, wall_secs: 60, cpu_secs: 30 };
+    let mut out = procmon::run(mk());
+    let _ = feeder.join();
+    acc.count(if devfull { "fifo_input_dev_full_runs" } else { "fifo_input_consumer_gone_runs" });
+    if matches!(out.status, Status::Timeout | Status::SpawnError(_)) {
+        acc.inconclusive += 1;
+        return;
+    }
+    let case = || json!({"fifo_input": true, "source": src.name(), "detect": detect, "to": to.name(), "devfull": devfull, "variant": variant});
+    if devfull {
+        let err = String::from_utf8_lossy(&out.stderr);
+        if out.status != Status::Exit(1) || !err.starts_with("xt error") {
+            acc.violation(Violation { sig: format!("/dev/full, FIFO input {}{}->{}: {}", src.name(), if detect { "(detected)" } else { "" }, to.name(), out.status.show()), case: case(), observed: format!("status {}, stderr [{}]", out.status.show(), preview(&out.stderr, 200)), expected: "exit 1 and a message beginning 'xt error'".into() });
+        } else {
+            acc.count("dev_full_status_1_with_message");
+        }
+    } else {
+        if out.status == Status::Exit(0) {
+            // confirm without concurrent spawns (see procmon::run_exclusive)
+            acc.count("exit_0_observations_confirmed_under_exclusion");
+            let feeder = procmon::feed_fifo_bursts(sc.path().join(&name), vec![vec![], small_input(src, variant)], 150);
+            out = procmon::run_exclusive(mk());
+            let _ = feeder.join();
+        }
+        if out.status == Status::Signal(libc::SIGPIPE) && out.stderr.is_empty() {
+            acc.count("killed_by_sigpipe_silently");
+        } else if !matches!(out.status, Status::Timeout | Status::SpawnError(_)) {
+            acc.violation(Violation { sig: format!("consumer gone, FIFO input {}{}->{}: {}", src.name(), if detect { "(detected)" } else { "" }, to.name(), out.status.show()), case: case(), observed: format!("status {}, stderr [{}]", out.status.show(), preview(&out.stderr, 200)), expected: "killed by SIGPIPE with nothing on stderr".into() });
+        }
+    }
+}
+
 /// A zero-length regular file is one empty TOML table: a few bytes of output for JSON / YAML / MessagePack
 /// targets that exist only in the buffer until the flush. stdout on /dev/full: status 1 and a message.
 pub fn judge_devfull_empty_file(name: &'static str, to: Fmt, acc: &mut Acc) {
@@ -463,15 +511,32 @@ pub fn run(ctx: &Ctx) -> i32 {
             judge_devfull_empty_file(name, to, &mut acc);
         }
     }
+    let mut fifo_cases = vec![];
+    for src in ALL {
+        for detect in [false, true] {
+            for to in ALL {
+                for devfull in [true, false] {
+                    for variant in 0..(if ctx.thorough() { 4 } else { 1 }) {
+                        fifo_cases.push((src, detect, to, devfull, variant + (to as usize + src as usize) % 2));
+                    }
+                }
+            }
+        }
+    }
+    let f_acc = crate::par::run(fifo_cases.len(), 1, |i, acc| {
+        let (src, detect, to, devfull, variant) = fifo_cases[i];
+        judge_fifo_input(src, detect, to, devfull, variant, acc);
+    });
+    acc.merge(f_acc);
     // TOML takes one input only; the other three targets get the late-input layout
     for to in [Fmt::Json, Fmt::Msgpack, Fmt::Yaml] {
         for (k, first) in [(0usize, 300usize), (4, 300), (4, 20_000), (100, 9_000), (1, 40_000)] {
             judge_late_small_input(to, k, first, &mut acc);
         }
     }
-    let rule = format!("{} closing-pipe runs: the consumer takes exactly k bytes for k in {:?} and closes while more than 1 MiB of output remains, x 4 targets x input layouts (one 3 MiB file, 3 MiB on stdin, ten 400 KiB files so that the failure is also met in the per-input flush), single-table and multi-document inputs, JSON input named explicitly for every case plus (quick) one rotating or (thorough) every other choice of source format JSON/YAML/MessagePack/TOML, named or detected; a matrix source x named/detected x target x small/40 KiB input in which the consumer is gone before stdin delivers anything (failure met in the final flush for small outputs) and the same matrix with stdout on /dev/full (stdin and file); /dev/full runs whose output is a long run of one-byte values and separators shifted by 0..5 (thorough: 0..63) bytes, so that the first failing write lands on every kind of token; a zero-length file (one empty TOML table) on /dev/full; plus 16 runs with stdout on /dev/full (outputs below and above the 8 KiB buffer) and 15 runs in which the consumer leaves after the first input's output and a second, small input arrives only afterwards (failure met in the per-input flush); distinct non-trivial = distinct (target, k, layout) cases", cs.len(), KS);
+    let rule = format!("{} closing-pipe runs: the consumer takes exactly k bytes for k in {:?} and closes while more than 1 MiB of output remains, x 4 targets x input layouts (one 3 MiB file, 3 MiB on stdin, ten 400 KiB files so that the failure is also met in the per-input flush), single-table and multi-document inputs, JSON input named explicitly for every case plus (quick) one rotating or (thorough) every other choice of source format JSON/YAML/MessagePack/TOML, named or detected; a matrix source x named/detected x target x small/40 KiB input in which the consumer is gone before stdin delivers anything (failure met in the final flush for small outputs) and the same matrix with stdout on /dev/full (stdin and file); /dev/full runs whose output is a long run of one-byte values and separators shifted by 0..5 (thorough: 0..63) bytes, so that the first failing write lands on every kind of token; a zero-length file (one empty TOML table) on /dev/full; FIFO operands (source x named/detected x target) on /dev/full and with the consumer gone before the FIFO delivers; plus 16 runs with stdout on /dev/full (outputs below and above the 8 KiB buffer) and 15 runs in which the consumer leaves after the first input's output and a second, small input arrives only afterwards (failure met in the per-input flush); distinct non-trivial = distinct (target, k, layout) cases", cs.len(), KS);
     ev::finish(
-        Finish { ctx, level: "fault_enumeration", rule, assumptions: vec!["the kernel's pipe semantics: a write to a pipe whose read end is closed fails with EPIPE".into(), "a run in which the consumer could not obtain k bytes is inconclusive, not a violation".into(), "an 'exit 0 although the consumer had left' observation is confirmed by one more run during which no other process is spawned (a concurrently spawned child briefly holds a copy of the read end)".into()], extra: serde_json::Map::new(), exhaustive: false, min_distinct: 40, must_reach: vec![("killed_by_sigpipe_silently".into(), 40), ("dev_full_runs".into(), 16), ("dev_full_status_1_with_message".into(), 100), ("consumer_gone_first_runs".into(), 100), ("dev_full_alignment_runs".into(), 50), ("dev_full_zero_length_file_runs".into(), 6), ("source_yaml_detected".into(), 3), ("source_msgpack".into(), 3), ("late_small_input_runs".into(), 15), ("layout_many_files".into(), 5), ("layout_stdin".into(), 5)] },
+        Finish { ctx, level: "fault_enumeration", rule, assumptions: vec!["the kernel's pipe semantics: a write to a pipe whose read end is closed fails with EPIPE".into(), "a run in which the consumer could not obtain k bytes is inconclusive, not a violation".into(), "an 'exit 0 although the consumer had left' observation is confirmed by one more run during which no other process is spawned (a concurrently spawned child briefly holds a copy of the read end)".into()], extra: serde_json::Map::new(), exhaustive: false, min_distinct: 40, must_reach: vec![("killed_by_sigpipe_silently".into(), 40), ("dev_full_runs".into(), 16), ("dev_full_status_1_with_message".into(), 100), ("consumer_gone_first_runs".into(), 100), ("dev_full_alignment_runs".into(), 50), ("dev_full_zero_length_file_runs".into(), 6), ("fifo_input_dev_full_runs".into(), 20), ("fifo_input_consumer_gone_runs".into(), 20), ("source_yaml_detected".into(), 3), ("source_msgpack".into(), 3), ("late_small_input_runs".into(), 15), ("layout_many_files".into(), 5), ("layout_stdin".into(), 5)] },
         acc,
     )
 }
@@ -480,7 +545,10 @@ pub fn replay(v: &Value) -> i32 {
     let c = &v["case"];
     let mut acc = Acc::default();
     let Some(to) = c["to"].as_str().and_then(Fmt::parse) else { return 2 };
-    if c["devfull_empty_file"].as_bool() == Some(true) {
+    if c["fifo_input"].as_bool() == Some(true) {
+        let Some(src) = c["source"].as_str().and_then(Fmt::parse) else { return 2 };
+        judge_fifo_input(src, c["detect"].as_bool().unwrap_or(false), to, c["devfull"].as_bool().unwrap_or(true), c["variant"].as_u64().unwrap_or(0) as usize, &mut acc);
+    } else if c["devfull_empty_file"].as_bool() == Some(true) {
         judge_devfull_empty_file(if c["name"].as_str() == Some("empty.toml") { "empty.toml" } else { "empty" }, to, &mut acc);
     } else if c["devfull_alignment"].as_bool() == Some(true) {
         let Some(src) = c["source"].as_str().and_then(Fmt::parse) else { return 2 };
